@@ -60,11 +60,18 @@ func (p *reprinter) kwAt(sp parser.Span, def string) {
 	if sp.IsValid() && sp.End <= len(p.src) {
 		toks := Tokens(p.src[sp.Start:sp.End])
 		if len(toks) > 0 && toks[0].Kind == parser.TokenIdentifier {
-			word = toks[0].Val
+			// only the spellings the language has for this operator are taken over
+			// from the source (an operator parsed from any other word prints back
+			// under its own name, which then differs from the source)
+			if w := toks[0].Val; w == def || kwSynonyms[def] == w {
+				word = w
+			}
 		}
 	}
 	p.out = append(p.out, TK{K: parser.TokenIdentifier, V: word})
 }
+var kwSynonyms = map[string]string{"where": "filter", "sort": "order", "take": "limit"}
+
 func (p *reprinter) word(w string) { p.out = append(p.out, TK{K: parser.TokenIdentifier, V: w}) }
 
 func (p *reprinter) ident(id *parser.Ident) {
